@@ -2,20 +2,32 @@
 #pragma once
 #include "common.h"
 using namespace SymEngine;
+// a stub integer is a 128-bit two's complement word (values beyond one limb): rebuild it as an integer_class
+static integer_class big_of(const Args &a, const std::string &k)
+{
+    auto it = a.find(k);
+    if (it == a.end()) return integer_class(0);
+    const std::string &v = it->second;
+    bool bin = v.size() > 64; for (char c : v) if (c != '0' && c != '1') bin = false;
+    if (!bin) return integer_class((long)int_of(a, k));
+    integer_class r(0), two(2);
+    for (char c : v) { r = r * two; if (c == '1') r = r + integer_class(1); }
+    if (v[0] == '1') { integer_class m(1); for (size_t i = 0; i < v.size(); i++) m = m * two; r = r - m; }
+    return r;
+}
 static RCP<const Basic> slot(const Args &a, const std::string &s, const std::string &kindvar)
 {
     long k = int_of(a, kindvar);
     switch (k) {
         case 1: return real_double(double_of(a, s + ".rd.i"));
         case 2: return complex_double(std::complex<double>(double_of(a, s + ".cd.i.re"), double_of(a, s + ".cd.i.im")));
-        case 3: return integer(integer_class((long)int_of(a, s + ".in.i.v")));
+        case 3: return integer(big_of(a, s + ".in.i.v"));
         case 4: {
-            long n = int_of(a, s + ".ra.i.num.v"), d = int_of(a, s + ".ra.i.den.v");
-            return Rational::from_two_ints(n, d);     // canonicalises: may become an Integer (stub class was wider)
+            return Rational::from_two_ints(*integer(big_of(a, s + ".ra.i.num.v")), *integer(big_of(a, s + ".ra.i.den.v")));     // canonicalises: may become an Integer (stub class was wider)
         }
         case 5: {
-            rational_class re(integer_class((long)int_of(a, s + ".co.real_.num.v")), integer_class((long)int_of(a, s + ".co.real_.den.v")));
-            rational_class im(integer_class((long)int_of(a, s + ".co.imaginary_.num.v")), integer_class((long)int_of(a, s + ".co.imaginary_.den.v")));
+            rational_class re(big_of(a, s + ".co.real_.num.v"), big_of(a, s + ".co.real_.den.v"));
+            rational_class im(big_of(a, s + ".co.imaginary_.num.v"), big_of(a, s + ".co.imaginary_.den.v"));
             canonicalize(re); canonicalize(im);
             return Complex::from_mpq(re, im);
         }
